@@ -258,4 +258,21 @@ theorem resetUpstream_ledger (c : Cfg) (aq : Nat) (s : S) (h : LedgerOk c aq s) 
         simp only [destroyStream, hl, Bool.false_eq_true, if_false]
       exact hs ▸ hdead1
 
+
+theorem K22_destroyStream (c : Cfg) (s : S) (k : Nat) (h : K22 c s) : K22 c (destroyStream c s k) := by
+  intro ho
+  have := h ho
+  simp only [destroyStream]
+  split
+  · exact liveAreCounted_setStream _ _ kill (fun _ _ => by simp [kill]) this
+  · exact this
+
+theorem K22_resetUpstream (c : Cfg) (s : S) (h : K22 c s) : K22 c (resetUpstream c s) := by
+  unfold resetUpstream
+  split
+  · apply K22_destroyStream
+    intro ho
+    exact liveAreCounted_setStream _ _ unlisten (fun st hst => by simpa [unlisten] using hst) (h ho)
+  · exact h
+
 end MosnVerif.Model.Downstream
